@@ -4,6 +4,7 @@ import (
 	"fmt"
 	"go/token"
 	"go/types"
+	"regexp"
 	"strings"
 
 	"golang.org/x/tools/go/ssa"
@@ -47,18 +48,18 @@ func ruleC01Head(c *Ctx) {
 		} else {
 			s := st[0].(*ssa.Store)
 			a, v := R.V(s.Addr), R.V(s.Val)
-			wantA := "&$0.location[+#i +div(+$2,+$0.sectorSize)]"
+			wantA := "&$0.location[+* +div(+$2,+$0.sectorSize)]"
 			if a == wantA && v == "(+len($0.files) -1)" {
 				c.OK(rule, FnName(fn)+" | map update value/index", c.P.InstrPos(s), "d.location[startSector+i] = uint16(len(d.files)-1)", false)
 			} else {
 				c.Bad(rule, FnName(fn)+" | map update value/index", c.P.InstrPos(s), "store is "+a+" = "+v+", expected "+wantA+" = (+len($0.files) -1)", nil)
 			}
 			// unconditional within the loop: from the loop-body entry edge every path to the back edge passes the store
-			body := atomEdges(fn, R, "-#i +div(+len($1),+$0.sectorSize) -1 >=0")
+			body := atomEdges(fn, R, "-* +div(+len($1),+$0.sectorSize) -1 >=0")
 			wsx := afterEdge(fn, body, func(in ssa.Instruction) bool { return in == st[0] }, nil, func(in ssa.Instruction) bool {
 				// site: the increment of the induction variable (loop latch)
 				b, ok := in.(*ssa.BinOp)
-				return ok && b.Op == token.ADD && R.V(b) == "#i" && in.Block() != st[0].Block() || (ok && R.V(b) == "#i" && instrIndex(in) < instrIndex(st[0]) && in.Block() == st[0].Block())
+				return ok && b.Op == token.ADD && R.V(b) == "*" && in.Block() != st[0].Block() || (ok && R.V(b) == "*" && instrIndex(in) < instrIndex(st[0]) && in.Block() == st[0].Block())
 			})
 			if len(wsx) == 0 {
 				c.OK(rule, FnName(fn)+" | map update on every sector", c.P.InstrPos(s), "every iteration of the sector loop passes the store before the loop latch", true)
@@ -123,16 +124,16 @@ func ruleC01Head(c *Ctx) {
 				st = append(st, in)
 			}
 		})
-		c.Guard(rule, f, st, "shift map entry", nil, atom("entry >= removed index", "+$0.location[+#i] -$1 >=0"))
+		c.Guard(rule, f, st, "shift map entry", nil, atom("entry >= removed index", "+$0.location[*] -$1 >=0"))
 		for _, s := range st {
-			if v := R.V(s.(*ssa.Store).Val); v != "(+$0.location[+#i] -1)" {
+			if v := R.V(s.(*ssa.Store).Val); v != "(+$0.location[*] -1)" {
 				c.Bad(rule, FnName(f)+" | shift by one", c.P.InstrPos(s), "map entry becomes "+v, nil)
 			} else {
 				c.OK(rule, FnName(f)+" | shift by one", c.P.InstrPos(s), "d.location[i]--", false)
 			}
 			// directly on the >= edge (not additionally conditioned)
 			ctl := controlAtoms(f, R, s.Block())
-			if len(ctl) > 0 && ctl[0] == "+$0.location[+#i] -$1 >=0" {
+			if len(ctl) > 0 && ctl[0] == "+$0.location[*] -$1 >=0" {
 				c.OK(rule, FnName(f)+" | every entry >= index shifted", c.P.InstrPos(s), "decrement sits directly on the >= edge inside the full scan", true)
 			} else {
 				c.Bad(rule, FnName(f)+" | every entry >= index shifted", c.P.InstrPos(s), "decrement is conditioned by "+strings.Join(ctl, ";"), nil)
@@ -141,7 +142,7 @@ func ruleC01Head(c *Ctx) {
 		// splice of files and UserCreatedSnap at the same index, after the scan of the whole map
 		var sp []ssa.Instruction
 		sp = append(sp, StoresTo(f, "diffDisk", "files")...)
-		c.Guard(rule, f, sp, "splice files", nil, atom("whole map scanned", "+#i -len($0.location) >=0"))
+		c.Guard(rule, f, sp, "splice files", nil, atom("whole map scanned", "+* -len($0.location) >=0"))
 		if len(st) == 0 || len(sp) == 0 {
 			c.Bad(rule, FnName(f)+" | structure", "", "RemoveIndex must shift the map and splice the file list", nil)
 		}
@@ -208,7 +209,81 @@ func ruleC01Head(c *Ctx) {
 			c.Bad(rule, FnName(f)+" | scans every chain file from the base up", "", "file scan order/skip changed", nil)
 		}
 	}
-	c.Floor(rule, 16)
+	// extent generator: the next FIEMAP batch starts right after the last extent reported
+	if f := c.Anchor(rule, "(*replica.UsedGenerator).findExtents"); f != nil {
+		R := NewRenderer(f)
+		fm := CallsTo(f, "github.com/frostschutz/go-fibmap.Fiemap")
+		if len(fm) == 1 {
+			start := R.V(fm[0].(*ssa.Call).Call.Args[1])
+			if regexp.MustCompile(`^phi\{0 \| phi\{\(\+.*#0\[\*\]\.Length \+.*#0\[\*\]\.Logical\) \| …\}\}$`).MatchString(start) {
+				c.OK(rule, FnName(f)+" | batch cursor = end of the last extent", c.P.InstrPos(fm[0]), "start = extent.Logical + extent.Length", false)
+			} else {
+				c.Bad(rule, FnName(f)+" | batch cursor = end of the last extent", c.P.InstrPos(fm[0]), "next FIEMAP batch starts at "+start+": with more than one batch, blocks are skipped or reported twice (preload then punches live data)", nil)
+			}
+		} else {
+			c.Bad(rule, FnName(f)+" | structure", "", "expected one Fiemap call", nil)
+		}
+		var sends []ssa.Instruction
+		eachInstr(f, func(in ssa.Instruction) {
+			if s, ok := in.(*ssa.Send); ok {
+				sends = append(sends, in)
+				if v := R.V(s.X); !regexp.MustCompile(`^\(\(\+.*#0\[\*\]\.Logical \+phi\{.*\}\) / \$0\.d\.sectorSize\)$`).MatchString(v) {
+					c.Bad(rule, FnName(f)+" | emitted block number", c.P.InstrPos(in), "generator emits "+v+", expected (extent.Logical + i) / sectorSize", nil)
+				}
+			}
+		})
+		if len(sends) == 1 {
+			c.OK(rule, FnName(f)+" | emits (Logical+i)/sectorSize for every block of every extent", c.P.InstrPos(sends[0]), "", false)
+		}
+	}
+	c.Floor(rule, 18)
+}
+
+// ruleC06RevertCtl: controller side of revert.
+func ruleC06RevertCtl(c *Ctx) {
+	const rule = "C06-REVERT-CTL"
+	c.Doc(rule, "Controller.Revert: refused unless some replica is RW and none is rebuilding; the frontend is shut down before any replica reverts; every replica of the collected clients is asked to revert to the same snapshot; the replica whose revert failed (the map key of that client) is marked ERR; success needs at least one reverted replica and restarts the frontend")
+	fn := c.Anchor(rule, fCtl+"Revert")
+	if fn == nil {
+		return
+	}
+	R := NewRenderer(fn)
+	cl := fCtl + "clientsAndSnapshot($0,$1)"
+	rv := CallsTo(fn, fRC+"Revert")
+	if len(rv) != 1 || callRender(R, rv[0]) != fRC+"Revert("+cl+"#0[*],"+cl+"#1,util.Now())" {
+		c.Bad(rule, FnName(fn)+" | every client reverts to the same snapshot", "", "expected client.Revert(name, now) over the collected clients", nil)
+		return
+	}
+	c.OK(rule, FnName(fn)+" | every client reverts to the same snapshot", c.P.InstrPos(rv[0]), "", false)
+	c.Guard(rule, fn, rv, "replica revert", nil,
+		okcall(fCtl+"shutdownFrontend"), okcall(fCtl+"clientsAndSnapshot"), needWLock("controller write lock taken"))
+	_, nonNil := nilTestEdges(fn, errOfCall(rv[0]))
+	want := fCtl + "setReplicaModeNoLock($0,key(" + cl + `#0),"ERR")`
+	ws := afterEdge(fn, nonNil, func(in ssa.Instruction) bool { return callRender(R, in) == want }, nil, func(in ssa.Instruction) bool {
+		_, isRet := in.(*ssa.Return)
+		return isRet || in == rv[0]
+	})
+	if len(ws) == 0 {
+		c.OK(rule, FnName(fn)+" | failed replica marked ERR", c.P.InstrPos(rv[0]), want, true)
+	} else {
+		c.Bad(rule, FnName(fn)+" | failed replica marked ERR", c.P.InstrPos(rv[0]), "a replica whose revert failed is not marked ERR under its own address (it stays RW and serves un-reverted data)", c.witness(ws[0]))
+	}
+	c.Guard(rule, fn, CallsTo(fn, fCtl+"startFrontend"), "restart frontend", nil, atom("at least one replica reverted", "phi{false | true}"))
+	if f := c.Anchor(rule, fCtl+"clientsAndSnapshot"); f != nil {
+		FR := NewRenderer(f)
+		var ins []ssa.Instruction
+		eachInstr(f, func(in ssa.Instruction) {
+			if mu, ok := in.(*ssa.MapUpdate); ok && FR.V(mu.Key) == "$0.replicas[*].Address" {
+				ins = append(ins, in)
+			}
+		})
+		c.Guard(rule, f, ins, "collect client", nil, atom("replica is RW", eqAtom(`"RW"`, "$0.replicas[*].Mode")))
+		c.Guard(rule, f, nilErrorReturns(f), "return clients", nil, atom("all replicas visited", "+* -len($0.replicas) >=0"))
+		if len(ins) == 0 {
+			c.Bad(rule, FnName(f)+" | clients keyed by address", "", "clients are not collected under the replica's address", nil)
+		}
+	}
+	c.Floor(rule, 8)
 }
 
 // ---------------------------------------------------------------------------
@@ -383,49 +458,17 @@ func ruleC06Hole(c *Ctx) {
 				c.Bad(rule, key+" | target derived from guarded index", where, "the file passed to the punch ("+R.V(F)+") is neither files[G] nor a phi paired with an index phi", nil)
 				continue
 			}
-			// dominating guard comparing G with some U, strictly
+			// dominating guard comparing G with some U, strictly (directly, or inside a boolean helper
+			// that receives G as an argument)
 			var Uval ssa.Value
-			guard := func(b *ssa.BasicBlock, k int) bool {
-				iff, ok := b.Instrs[len(b.Instrs)-1].(*ssa.If)
-				if !ok {
-					return false
-				}
-				bo, ok := iff.Cond.(*ssa.BinOp)
-				if !ok {
-					return false
-				}
-				var other ssa.Value
-				gIsX := false
-				if valueEq(R, strip(bo.X), strip(G)) {
-					other, gIsX = bo.Y, true
-				} else if valueEq(R, strip(bo.Y), strip(G)) {
-					other = bo.X
-				} else {
-					return false
-				}
-				// which edge means G > other ?
-				strict := false
-				switch bo.Op {
-				case token.GTR: // X > Y
-					strict = (gIsX && k == 0)
-				case token.LSS: // X < Y
-					strict = (!gIsX && k == 0)
-				case token.LEQ: // X <= Y  ; false edge: X > Y
-					strict = (gIsX && k == 1)
-				case token.GEQ: // X >= Y ; false edge: X < Y
-					strict = (!gIsX && k == 1)
-				}
-				if strict {
-					if _, ok := userSnapTerm(fn, R, other); ok {
-						Uval = other
-						return true
-					}
-				}
-				return false
-			}
+			guard := strictUserSnapGuard(fn, R, G, &Uval, true)
 			ws := Query{Fn: fn, IsSite: func(in ssa.Instruction) bool { return in == site }, GenEdge: guard}.Run()
 			if len(ws) == 0 && Uval != nil {
-				us, _ := userSnapTerm(fn, R, Uval)
+				ufn, UR := fn, R
+				if in, ok := Uval.(ssa.Instruction); ok && in.Parent() != fn {
+					ufn, UR = in.Parent(), NewRenderer(in.Parent())
+				}
+				us, _ := userSnapTerm(ufn, UR, Uval)
 				c.OK(rule, key+" | target derived from guarded index", where, fmt.Sprintf("file is %s of G=%s; every path passes the strict edge G > %s", how, R.V(G), us), true)
 				// U complete before use when it is a loop-computed local of a separate loop
 				if p, ok := strip(Uval).(*ssa.Phi); ok {
@@ -461,6 +504,105 @@ func ruleC06Hole(c *Ctx) {
 		}
 	}
 	c.Floor(rule, 18)
+}
+
+// strictUserSnapGuard: predicate for the edges of fn on which `G > U` holds strictly, U being a
+// valid latest-user-snapshot term (recorded in *Uout).  With helpers=true, the true edge of a
+// same-module boolean helper h(…G…) counts when every positive return of h is cut off by such
+// an edge on the corresponding parameter.
+func strictUserSnapGuard(fn *ssa.Function, R *Renderer, G ssa.Value, Uout *ssa.Value, helpers bool) func(*ssa.BasicBlock, int) bool {
+	return func(b *ssa.BasicBlock, k int) bool {
+		iff, ok := b.Instrs[len(b.Instrs)-1].(*ssa.If)
+		if !ok {
+			return false
+		}
+		if bo, ok := iff.Cond.(*ssa.BinOp); ok {
+			var other ssa.Value
+			gIsX := false
+			if valueEq(R, strip(bo.X), strip(G)) {
+				other, gIsX = bo.Y, true
+			} else if valueEq(R, strip(bo.Y), strip(G)) {
+				other = bo.X
+			} else {
+				return false
+			}
+			strict := false
+			switch bo.Op {
+			case token.GTR: // X > Y
+				strict = (gIsX && k == 0)
+			case token.LSS: // X < Y
+				strict = (!gIsX && k == 0)
+			case token.LEQ: // X <= Y ; false edge: X > Y
+				strict = (gIsX && k == 1)
+			case token.GEQ: // X >= Y ; false edge: X < Y
+				strict = (!gIsX && k == 1)
+			}
+			if strict {
+				if _, ok := userSnapTerm(fn, R, other); ok {
+					*Uout = other
+					return true
+				}
+			}
+			return false
+		}
+		if !helpers {
+			return false
+		}
+		cond, neg := iff.Cond, false
+		for {
+			if u, ok := cond.(*ssa.UnOp); ok && u.Op == token.NOT {
+				cond, neg = u.X, !neg
+				continue
+			}
+			break
+		}
+		cl, ok := cond.(*ssa.Call)
+		if !ok || (k == 0) == neg {
+			return false
+		}
+		h := cl.Call.StaticCallee()
+		if h == nil || h.Blocks == nil || !isJivaFn(h) || h.Signature.Results().Len() != 1 || !isBoolType(h.Signature.Results().At(0).Type()) {
+			return false
+		}
+		for j, a := range cl.Call.Args {
+			if strip(a) != strip(G) || j >= len(h.Params) {
+				continue
+			}
+			HR := NewRenderer(h)
+			var hu ssa.Value
+			hg := strictUserSnapGuard(h, HR, h.Params[j], &hu, false)
+			okAll := true
+			n := 0
+			for _, r := range Returns(h) {
+				v := strip(r.Results[0])
+				var sites []ssa.Instruction
+				if p, ok := v.(*ssa.Phi); ok {
+					for _, e := range allPhiEdges(p) {
+						if c, ok := strip(e.val).(*ssa.Const); ok && c.Value != nil && c.Value.String() == "false" {
+							continue
+						}
+						sites = append(sites, e.from.Instrs[len(e.from.Instrs)-1])
+					}
+				} else if c, ok := v.(*ssa.Const); ok && c.Value != nil && c.Value.String() == "false" {
+					continue
+				} else {
+					sites = append(sites, r)
+				}
+				for _, s := range sites {
+					n++
+					s := s
+					if len((Query{Fn: h, IsSite: func(in ssa.Instruction) bool { return in == s }, GenEdge: hg}).Run()) > 0 {
+						okAll = false
+					}
+				}
+			}
+			if okAll && n > 0 && hu != nil {
+				*Uout = hu
+				return true
+			}
+		}
+		return false
+	}
 }
 
 func valueEq(R *Renderer, a, b ssa.Value) bool {
